@@ -1,3 +1,4 @@
 pub mod range;
 pub mod cfb;
 pub mod biff;
+pub mod sst;
